@@ -1064,8 +1064,8 @@ async fn client_main(io: Io, case: Rc<PairCase>, ctx: Ctx, cmds: Rc<RefCell<CmdQ
         drop(root);
     } else {
         // keep the handle alive for the whole run (held by a parked task that never completes is not
-        // allowed under the strict executor: hold it in the context instead)
-        std::mem::forget(root);
+        // allowed under the strict executor): parked until the case is torn down
+        HELD.with(|h| h.borrow_mut().push(Box::new(root)));
     }
     use std::future::Future;
 }
@@ -1921,9 +1921,13 @@ pub fn run_sim_cap(case: &PairCase, raw: Option<(Side, Rc<crate::sim_raw::RawSpe
 /// Drop every task and handle; a panic in a destructor of the code under test is
 /// recorded like any other panic.
 fn teardown_all(mut exec: Exec, ctx: Ctx, run: &mut PairRun) {
+    // (a panic *during the run* may have poisoned locks: everything is leaked then. A panic in a destructor at
+    // teardown — the debug assertion of Counts::drop, in most runs that end with streams still counted — is contained
+    // per object, and the rest is dropped normally: leaking the pipes of every such case adds up to gigabytes)
+    let panicked_in_run = run.panic.is_some() || exec.any_panic().is_some();
     exec.teardown();
     let held: Vec<Box<dyn std::any::Any>> = HELD.with(|h| std::mem::take(&mut *h.borrow_mut()));
-    if run.panic.is_some() || exec.any_panic().is_some() {
+    if panicked_in_run {
         if run.panic.is_none() {
             run.panic = exec.any_panic();
         }
